@@ -103,6 +103,28 @@ def analyse(facts, tier):
                                         why='the new %s is stored before the call that may clean the note up' % fld if okc else
                                         '%s is still stale when %s runs cleanupNote: the counter is decremented twice for one note' % (fld, cn)))
 
+    # ---- R2c: the converse direction — a store that takes a note out of (or into) the counted set moves the counter in the same block.
+    # realTime_NoteOn initialises the fields of the note it has just created (the preceding implicit note-off cleaned any old one up).
+    HUGE = ('HUGE_VAL', '__builtin_huge_val', 'inf')
+    for fn in facts.all_fns():
+        if not fn.name.startswith('OPNMIDIplay::') or fn.name.endswith('::realTime_NoteOn') or fn.d.get('ctor'):
+            continue
+        for b, j, st in fn.cfg.stmts():
+            for x in walk(st['s']):
+                ap = assign_parts(x)
+                if not (ap and strip(ap[0]).get('k') == 'MemberExpr' and short(strip(ap[0])['n']) == 'glideRate'):
+                    continue
+                rhs = show(ap[1])
+                leaving = any(h in rhs for h in HUGE) or (strip(ap[1]).get('fc') is not None and strip(ap[1]).get('fc') > 1e300)
+                want = '--' if leaving else '++'
+                blk = fn.cfg.blocks[b]
+                same = any(is_incdec(y) and y['op'] == want and strip(y['e']).get('k') == 'MemberExpr' and short(strip(y['e'])['n']) == 'gliding_note_count'
+                           for st2 in blk['stmts'] for y in walk(st2['s']))
+                obls.append(Obl('C04.R2', fn.name, 'glideRate = %s' % rhs[:30], st['loc'], 'discharged' if same else 'finding',
+                                why='%sgliding_note_count in the same block' % want if same else
+                                'the note %s the set of gliding notes but gliding_note_count is not %s: the counter no longer equals the number of gliding notes (cleanupNote will not correct it)' % (
+                                    'leaves' if leaving else 'enters', 'decremented' if leaving else 'incremented')))
+
     # ---- R3
     non = facts.fn('OPNMIDIplay::realTime_NoteOn')
     for b, j, st in non.cfg.stmts():
